@@ -361,6 +361,9 @@ func (e *kvEnv) step(s kvStep) string {
 		e.advance(time.Duration(s.I[0]) * time.Millisecond)
 		return ""
 	}
+	if s.C == "burst" {
+		return e.burst(s)
+	}
 	ent := kvTable[s.C]
 	if ent == nil {
 		return "unknown command in case"
@@ -521,6 +524,90 @@ func (e *kvEnv) step(s kvStep) string {
 	return ""
 }
 
+// kvBurstScript keeps its connection busy for a moment (the loop) and then writes.
+const kvBurstScript = `local x = 0 for i = 1, tonumber(ARGV[2]) do x = x + 1 end redis.call('SET', KEYS[1], ARGV[1]) return x`
+
+// burst: K (> the 8 idle connections a wrapper client keeps) single-key commands are
+// issued concurrently through the store, all on keys that live on ONE target shard, so
+// that the shared client of that shard's address - created earlier than the clients of
+// the later shards - has to dial fresh connections. Only the target shard may process
+// commands, as many as the single server does, and the keyspaces must agree.
+func (e *kvEnv) burst(s kvStep) string {
+	k, loops := int(s.I[0]), s.I[1]
+	e.ncmd++
+	e.classes["cmd:burst"] = true
+	own := e.owner()
+	target := -1
+	for i := 0; i < len(e.c.Weights); i++ { // first configured shard at or after I[2] that owns keys at all
+		if t := (int(s.I[2]) + i) % len(e.c.Weights); e.c.Weights[t] > 0 {
+			target = t
+			break
+		}
+	}
+	var keys []string
+	for j := 0; len(keys) < k && j < 100000; j++ {
+		if key := fmt.Sprintf("burst:%d", j); own(key) == target {
+			keys = append(keys, key)
+		}
+	}
+	if len(keys) < k {
+		e.classes["burst:no-keys-for-target"] = true
+		return ""
+	}
+	e.classes[fmt.Sprintf("burst:target-shard:%d", target)] = true
+	before := e.counts()
+	conns0 := kvShards[target].TotalConnectionCount()
+	ctx := context.Background()
+	if s.X {
+		ctx = context.WithValue(ctx, kvCtxKey{}, "c12")
+	}
+	got := make([]any, k)
+	gerrs := make([]error, k)
+	start := make(chan struct{})
+	var wg sync.WaitGroup
+	st := e.store
+	for i := 0; i < k; i++ {
+		wg.Add(1)
+		go func(i int) {
+			defer wg.Done()
+			val := fmt.Sprintf("v%d", i)
+			<-start
+			if s.X {
+				got[i], gerrs[i] = st.EvalCtx(ctx, kvBurstScript, keys[i], val, loops)
+			} else {
+				got[i], gerrs[i] = st.Eval(kvBurstScript, keys[i], val, loops)
+			}
+		}(i)
+	}
+	close(start)
+	wg.Wait()
+	for i := 0; i < k; i++ {
+		want, werr := kvRef.Eval(context.Background(), kvBurstScript, []string{keys[i]}, fmt.Sprintf("v%d", i), loops).Result()
+		e.noteErr(gerrs[i])
+		if kvErrStr(gerrs[i]) != kvErrStr(werr) || (werr == nil && kvCanon(got[i], false) != kvCanon(want, false)) {
+			return fmt.Sprintf("concurrent call %d of %d (key %s, shard %d): store (%s, %q), single server (%s, %q)", i, k, keys[i], target,
+				kvCanon(got[i], false), kvErrStr(gerrs[i]), kvCanon(want, false), kvErrStr(werr))
+		}
+	}
+	after := e.counts()
+	for i := 1; i < len(after); i++ {
+		d, want := after[i]-before[i], 0
+		if i-1 == target {
+			want = after[0] - before[0]
+		}
+		if d != want {
+			return fmt.Sprintf("%d concurrent commands on keys of shard %d: shard %d processed %d commands, want %d (single server: %d)", k, target, i-1, d, want, after[0]-before[0])
+		}
+	}
+	if d := e.checkKeyspace(); d != "" {
+		return "keyspace after the concurrent commands: " + d
+	}
+	if kvShards[target].TotalConnectionCount() > conns0 {
+		e.classes["burst:dialled-new-connections"] = true
+	}
+	return ""
+}
+
 // counts: processed-command counters, [0] = reference server, [1..] = shards.
 func (e *kvEnv) counts() []int {
 	out := []int{kvRefSrv.CommandCount()}
@@ -628,6 +715,10 @@ func kvGen(rt *rapid.T) kvCase {
 			d := ds[g.uni(len(ds))]
 			g.elapsed += time.Duration(d) * time.Millisecond
 			c.Steps = append(c.Steps, kvStep{C: "advance", I: []int64{d}})
+			continue
+		}
+		if g.uni(300) == 0 {
+			c.Steps = append(c.Steps, kvStep{C: "burst", X: g.uni(2) == 1, I: []int64{int64(12 + g.uni(13)), 3000, int64(g.uni(kvMaxShards))}})
 			continue
 		}
 		name := kvWeighted[g.uni(len(kvWeighted))]
